@@ -146,6 +146,14 @@ func runC20(t *zsim.Tape, cfg *hlib.Config) *hlib.Outcome {
 	enPanic := t.Draw(5) == 4
 	enAbort := t.Draw(3) == 2
 	enStall := t.Draw(4) == 3
+	// a client that stalls for ever pins its worker (the worker has no read deadline); the
+	// remaining capacity argument (max-procs minus stallers >= 1) only holds while no worker
+	// dies, so this fault is drawn only in runs without any fault that ends a worker
+	enStallClient := t.Draw(8) == 7
+	if enStallClient {
+		enKillTime, enKillAccept, enKillStart, enKillAll, enHang, enNear, enPanic, enAbort = false, false, false, false, false, false, false, false
+	}
+	stallers := 0
 	sc.SlowStart = t.Draw(3) == 2
 	if sc.SlowStart {
 		w.Ext["spawn-delay"] = func(p *zsim.Proc) time.Duration {
@@ -182,6 +190,12 @@ func runC20(t *zsim.Tape, cfg *hlib.Config) *hlib.Outcome {
 			}
 			if enAbort && t.Draw(6) == 5 {
 				r.Abort = []string{"before-send", "mid-request"}[t.Draw(2)]
+			}
+			// a client that connects, sends half of its request and then just sits there: it occupies
+			// a worker for ever; at most max-procs-1 of them, so that capacity for the others remains
+			if enStallClient && stallers < sc.MaxProcs-1 && t.Draw(8) == 7 {
+				r.Abort = "stall"
+				stallers++
 			}
 			reqs = append(reqs, r)
 			h.scripts[r.Token] = r
@@ -224,6 +238,11 @@ func runC20(t *zsim.Tape, cfg *hlib.Config) *hlib.Outcome {
 					conn.Write([]byte(msg[:len(msg)/2]))
 					conn.Close()
 					r.Done = true
+					continue
+				case "stall":
+					w.Fault("client-stalls-mid-request")
+					conn.Write([]byte(msg[:len(msg)/2]))
+					r.Done = true // this client never expects an answer; the connection stays open
 					continue
 				}
 				conn.Write([]byte(msg))
